@@ -24,6 +24,15 @@ CHECKS = {
  'C05': dict(level='fault_enumeration', ref='§5 C05', world='faults',
    text="Fault-site enumeration over sampled workloads: phase 1 records every site a workload reaches (k-th watcher invocation raises, rejected value as k-th key of each update in three rejection kinds, exceptional exit of each context at each unwind depth, rejected constructor); phase 2 re-executes once per selected site (quick: seeded sample, thorough: all + pairs) and compares the object, by an identical probe history, with a fresh twin built on a fresh class from the object's actual values and watchers; plus announce-by-raise against a pre-fault twin and a direct still-deferred check inside surrounding batches.",
    tech="deterministic fault injection with crash-point enumeration: raise/reject at every reached site, model-free fresh-twin differential oracle"),
+ 'C12': dict(level='exploration', ref='§5 C12', world='class',
+   text="Seeded search over interleavings of instance creation, instance and class assignments at every level of generated hierarchies (chains, fork, diamond; instantiate / per_instance / constant / mutable defaults / mutable Parameter attributes), in-place mutation of values and of Parameter attributes, first access of instance Parameters; after every step the value (identity label and independently tracked content) and Parameter attributes of every class and instance are compared with an ownership model.",
+   tech="deterministic simulation of class/instance operation interleavings against an ownership reference model (who owns each value slot and each Parameter attribute)"),
+ 'C13': dict(level='exploration', ref='§5 C13', world='class',
+   text="Same hierarchies with add_parameter at every level and explicit namespace reads (list / [] / in / values / repr) as cache-filling operations; after every step every Parameter found by a static walk of the MRO must be listed in .param, be the identical object, have default == class attribute, and .param.values(), repr and serialization must agree with getattr on every class and instance; watchers on just-added parameters must work.",
+   tech="deterministic simulation of read/mutate interleavings with a cache-coherence invariant (.param namespace vs static MRO walk vs getattr) after every step"),
+ 'C14': dict(level='exploration', ref='§5 C14', world='class',
+   text="Histories of constructor arguments for constants, instance sets of the identical / an equal / a different object, update(), class-level sets on declaring and inheriting classes, read-only sets, name sets, nested edit_constant blocks on several instances left normally or by an injected exception, instance Parameter copies created before or after; identity of the held object, TypeError for every forbidden attempt, acceptance inside the object's own block, and constant flags on class and instance Parameter objects are checked after every step.",
+   tech="deterministic simulation with injected exceptions in edit_constant bodies; identity/flag invariants after every step"),
  'C18': dict(level='exploration', ref='§5 C18', world='selector',
    text="Seeded search over mutation histories of Selector/ListSelector objects (list- and dict-declared, class-level and per-instance): item/key assignment, append, insert, extend, update, pop by index/key, remove, clear, wholesale replacement incl. style switch, interleaved with value assignments; after every step list(objects), objects.items(), names, get_range() and accept/reject of a present and an absent value are compared with a sequential reference container; pop return values and one objects-notification per mutation are checked.",
    tech="deterministic simulation of mutation histories against a sequential reference container (ordered name/object list), five-view agreement invariant after every step"),
